@@ -253,9 +253,13 @@ def order_rule(ctx: Ctx) -> None:
         for v in ("abs", "rel"):
             o = "rel" if v == "abs" else "abs"
 
-            def trigger(n, v=v):
-                return isinstance(n, ast.stmt) and not isinstance(n, (ast.If, ast.For, ast.While, ast.Try, ast.With, ast.FunctionDef)) \
-                    and any(changed_view(c) == v for c in ast.walk(n))
+            def trigger(n, v=v, o=o):
+                if not (isinstance(n, ast.stmt) and not isinstance(n, (ast.If, ast.For, ast.While, ast.Try, ast.With, ast.FunctionDef))
+                        and any(changed_view(c) == v for c in ast.walk(n))):
+                    return False
+                # under `if self._<other>_stale:` the other view is stale already (and stays so: nothing here refreshes it)
+                from ..astutil import path_conditions
+                return not any(h and src(t) == f"self._{o}_stale" for t, h in path_conditions(n))
 
             def discharge(n, o=o):
                 if isinstance(n, ast.Call):
